@@ -173,5 +173,10 @@ Section Sphere.
     end.
   Definition sphere_world_bounds (s : Sphere) : BBox K :=
     match stransform s with Some t => tr_bbox t (sphere_bounds s) | None => sphere_bounds s end.
+  (** debug builds: the assertion of [mul4x4point] inside [transform_bbox] / [transform_pt] (Model/Transform.v) *)
+  Definition sphere_world_bounds_debug_ok (s : Sphere) : bool :=
+    match stransform s with Some t => tr_bbox_debug_ok t (sphere_bounds s) | None => true end.
+  Definition sphere_centre_debug_ok (s : Sphere) : bool :=
+    match stransform s with Some t => tr_pt_debug_ok t (mkV3 n0 n0 n0) | None => true end.
 End Sphere.
 Arguments Sphere K : clear implicits.
